@@ -138,6 +138,9 @@ def content(pool, k, j):
         d['relationship_type'] = e['rtype']
         d['source_ref'] = pool_id(pool, e['src'])
         d['target_ref'] = pool_id(pool, e['dst'])
+        if e.get('flip') and e['flip'][j % len(e['flip'])]:
+            # a later version may correct the direction of a relationship (only type, id, created, created_by_ref are fixed)
+            d['source_ref'], d['target_ref'] = d['target_ref'], d['source_ref']
         d['labels'] = ['v%d' % j]
         if 'creator' in e:
             d['created_by_ref'] = C.mkid('identity', pool[e['creator']]['id_n'])
